@@ -1,6 +1,35 @@
 /-
-  Property C03 — property theorems only (helper lemmas live next to the model).
-  Stub: nothing claimed yet.
+  Property C03 — concurrent hash set/map: linearizable insert-if-absent, one winner per key.
+  Property theorems only (helper lemmas live next to the model, `Babylon/Swiss/Conc*.lean`).
 -/
+import Babylon.Swiss.Conc
+
 namespace Babylon.Properties.C03
+open Babylon.Core Babylon.Swiss Babylon.Swiss.Conc
+open Babylon.Gen.Swiss Babylon.Gen.SwissConc
+
+/-! ### generated obligations: the source still has the shape the model was written against -/
+
+theorem gen_skel_do_emplace : skel_do_emplace = Skel.do_emplace := by decide
+theorem gen_skel_find : skel_find = Skel.find := by decide
+theorem gen_skel_set_emplace : skel_set_emplace = Skel.set_emplace := by decide
+theorem gen_skel_set_find : skel_set_find = Skel.set_find := by decide
+theorem gen_skel_group_load : skel_group_load_tsan = Skel.group_load_tsan := by decide
+/-- the two generators agree on `do_emplace` / `find` (C18 and C03 model the same code) -/
+theorem gen_skel_same_as_seq : Babylon.Gen.Swiss.skel_do_emplace = Babylon.Gen.SwissConc.skel_do_emplace ∧
+    Babylon.Gen.Swiss.skel_find = Babylon.Gen.SwissConc.skel_find := by decide
+/-- one group = 16 relaxed byte loads; the tag is published with release and read under an acquire
+fence; the slot lock is taken by an acquiring CAS EMPTY→BUSY -/
+theorem gen_orders : groupLoads = groupSize ∧ ordGroupLoad = .rlx ∧
+    ordEmplaceFence.acquires = true ∧ ordFindFence.acquires = true ∧
+    ordCasSucc.acquires = true ∧ ordStoreMain.releases = true ∧ ordStoreMirror.releases = true ∧
+    ordSetEmplaceNextLoad.acquires = true ∧ ordSetFindHeadLoad.acquires = true ∧
+    ordSetFindNextLoad.acquires = true ∧ ordSetCasSucc.acquires = true ∧ ordSetCasSucc.releases = true ∧
+    ordSetCasFail.acquires = true := by decide
+theorem gen_cas_operands : casExpected = emptyCtl ∧ casDesired = busyCtl ∧
+    casFailBranches = [(dummyCtl, "break"), (busyCtl, "yield-continue")] ∧ growShift = 1 := by decide
+theorem gen_controls : emptyCtl < 0 ∧ busyCtl < 0 ∧ dummyCtl < 0 ∧ emptyCtl ≠ busyCtl ∧ emptyCtl ≠ dummyCtl ∧
+    busyCtl ≠ dummyCtl ∧ groupSize = 16 ∧ groupMask = 15 ∧ checkerMask = 127 ∧ checkerBits = 7 ∧
+    dummyLen = 32 := by decide
+
 end Babylon.Properties.C03
